@@ -321,15 +321,26 @@ func (w *rsWorld) receive(from string, msg []byte) {
 			if from == w.eligible {
 				w.eligible = ""
 			}
-			w.bcR.RemovePeer(w.peer(from), fmt.Errorf("%v", p))
+			// (the switch removes the peer from the reactors; not repeated here when the pool has
+			// dropped it already: a second removePeer would redo its requesters a second time)
+			if _, in := w.snap().peers[from]; in {
+				w.bcR.RemovePeer(w.peer(from), fmt.Errorf("%v", p))
+			}
 		}
 	}()
 	w.bcR.Receive(bcChannel, w.peer(from), msg)
 }
 
-// sendBlockGuarded is sendBlock for the one situation in which the pool can lock up: AddBlock
-// blocks on the requester's gotBlockCh while holding the pool's mutex, and the requester, which
-// took the redo first, waits for that mutex.
+func (w *rsWorld) sendBlock(from string, b *gtypes.Block) {
+	if w.poolDead {
+		return
+	}
+	w.sendBlockGuarded(from, b)
+}
+
+// sendBlockGuarded delivers a block response and notices when the pool locks up: AddBlock blocks
+// on the requester's gotBlockCh while holding the pool's mutex, and the requester, which took a
+// redo first, waits for that mutex.
 func (w *rsWorld) sendBlockGuarded(from string, b *gtypes.Block) {
 	msg := wire.BinaryBytes(struct{ C13Message }{&blockResponseMsg{Block: b}})
 	done := make(chan struct{})
@@ -360,11 +371,7 @@ func (w *rsWorld) sendBlockGuarded(from string, b *gtypes.Block) {
 	w.poolDead = true
 	w.halted = true
 	w.label("pool-locked-up")
-	w.x.Fail(sigLate, "the answer of peer %s, removed a moment ago, never returns from BlockPool.AddBlock: it holds the pool's mutex and waits for the requester, which took the redo and waits for the mutex; the pool (PeekTwoBlocks, every Receive) stands still for ever", from)
-}
-
-func (w *rsWorld) sendBlock(from string, b *gtypes.Block) {
-	w.receive(from, wire.BinaryBytes(struct{ C13Message }{&blockResponseMsg{Block: b}}))
+	w.x.Fail(sigLate, "the answer of peer %s never returns from BlockPool.AddBlock: it holds the pool's mutex and waits for the requester, which took a redo and waits for the mutex; the pool (PeekTwoBlocks, every Receive) stands still for ever", from)
 }
 
 func (w *rsWorld) sendStatus(from string, height int64) {
